@@ -577,3 +577,84 @@ func TestDRAProbePermutedVictimKeepsSubstituteDevice(t *testing.T) {
 		show(t, "C14 claim oracle:", oracle())
 	})
 }
+
+// GPU-class claims: a node without device-plugin GPUs whose GPUs are two DRA devices of a GPU driver; pod v runs
+// there with a generated claim of the GPU class for one device, pod w is pending with a claim for two. The probe
+// prints what the scheduler charges (node, workload) and what the C14 oracles recompute, through evict / un-evict /
+// discard and through allocate / discard. On the unchanged tree everything agrees.
+func TestDRAProbeGpuClassClaims(t *testing.T) {
+	p := newProbe(map[string]int{})
+	mkGpuClaim := func(pod string, count int64, a *resourceapi.AllocationResult, reserved bool) {
+		c := &resourceapi.ResourceClaim{ObjectMeta: metav1.ObjectMeta{Name: pod + "-gpu", Namespace: "ns", UID: types.UID("claim-" + pod + "-gpu"),
+			OwnerReferences: []metav1.OwnerReference{{APIVersion: "v1", Kind: "Pod", Name: pod, UID: types.UID("uid-" + pod), Controller: ptr.To(true)}}},
+			Spec: resourceapi.ResourceClaimSpec{Devices: resourceapi.DeviceClaim{Requests: []resourceapi.DeviceRequest{{Name: "req",
+				Exactly: &resourceapi.ExactDeviceRequest{DeviceClassName: gen.DRAGpuClass, AllocationMode: resourceapi.DeviceAllocationModeExactCount, Count: count}}}}}}
+		c.Status.Allocation = a
+		if reserved {
+			c.Status.ReservedFor = []resourceapi.ResourceClaimConsumerReference{{Resource: "pods", Name: pod, UID: types.UID("uid-" + pod)}}
+		}
+		p.c.Objects.ResourceClaims = append(p.c.Objects.ResourceClaims, c)
+	}
+	alloc := v1.ResourceList{v1.ResourceCPU: resource.MustParse("16"), v1.ResourceMemory: resource.MustParse("64Gi"), v1.ResourcePods: resource.MustParse("110")}
+	p.c.Objects.Nodes = append(p.c.Objects.Nodes, &v1.Node{ObjectMeta: metav1.ObjectMeta{Name: "n0", UID: "node-n0", Labels: map[string]string{"kubernetes.io/hostname": "n0"}},
+		Status: v1.NodeStatus{Allocatable: alloc, Capacity: alloc, Conditions: []v1.NodeCondition{{Type: v1.NodeReady, Status: v1.ConditionTrue}}}})
+	p.c.Objects.ResourceSlices = append(p.c.Objects.ResourceSlices, &resourceapi.ResourceSlice{ObjectMeta: metav1.ObjectMeta{Name: "gpuslice-n0"},
+		Spec: resourceapi.ResourceSliceSpec{Driver: gen.DRAGpuDriver, NodeName: ptr.To("n0"), Pool: resourceapi.ResourcePool{Name: "n0", Generation: 1, ResourceSliceCount: 1},
+			Devices: []resourceapi.Device{{Name: "g0"}, {Name: "g1"}, {Name: "g2"}}}})
+	p.c.Objects.DeviceClasses = append(p.c.Objects.DeviceClasses, &resourceapi.DeviceClass{ObjectMeta: metav1.ObjectMeta{Name: gen.DRAGpuClass}})
+	p.group("pg-v", 1)
+	p.group("pg-w", 1)
+	va := &resourceapi.AllocationResult{NodeSelector: &v1.NodeSelector{NodeSelectorTerms: []v1.NodeSelectorTerm{{MatchFields: []v1.NodeSelectorRequirement{{Key: "metadata.name", Operator: v1.NodeSelectorOpIn, Values: []string{"n0"}}}}}}}
+	va.Devices.Results = []resourceapi.DeviceRequestAllocationResult{{Request: "req", Driver: gen.DRAGpuDriver, Pool: "n0", Device: "g0"}}
+	mkGpuClaim("v", 1, va, true)
+	mkGpuClaim("w", 2, nil, false)
+	p.pod("v", "pg-v", "", "n0", true, nil)
+	p.pod("w", "pg-w", "", "", false, nil)
+	for _, pod := range p.c.Objects.Pods {
+		pod.Spec.ResourceClaims = []v1.PodResourceClaim{{Name: gen.DRAGpuPodClaimName, ResourceClaimTemplateName: ptr.To("tmpl")}}
+		pod.Status.ResourceClaimStatuses = []v1.PodResourceClaimStatus{{Name: gen.DRAGpuPodClaimName, ResourceClaimName: ptr.To(pod.Name + "-gpu")}}
+	}
+	gpuLines := func(ssn *framework.Session) []string {
+		var out []string
+		ni := ssn.ClusterInfo.Nodes["n0"]
+		out = append(out, fmt.Sprintf("node n0 gpus: allocatable=%v idle=%v used=%v releasing=%v hasDRAGPUs=%v", ni.Allocatable.GPUs(), ni.Idle.GPUs(), ni.Used.GPUs(), ni.Releasing.GPUs(), ni.HasDRAGPUs))
+		for _, id := range []string{"pg-v", "pg-w"} {
+			j := ssn.ClusterInfo.PodGroupInfos[common_info.PodGroupID(id)]
+			for _, ti := range j.GetAllPodsMap() {
+				out = append(out, fmt.Sprintf("job %s allocated gpus=%v; pod %s %v request: gpus=%v draGpus=%d", id, j.Allocated.GPUs(), ti.Name, ti.Status, ti.ResReq.GPUs(), ti.ResReq.GetDraGpusCount()))
+			}
+		}
+		return out
+	}
+	oracles := func(ssn *framework.Session) []string {
+		st := map[string]int{}
+		out := append(mon.CheckNodes(ssn, nil, st), mon.CheckJobs(ssn, st)...)
+		out = append(out, mon.CheckDraGpuRequests(ssn, st)...)
+		out = append(out, mon.CheckClaims(ssn, st)...)
+		out = append(out, fmt.Sprintf("(node capacity checks %d, closed-form gpu checks %d, node rebuilds %d, request comparisons %d)",
+			st["dra_gpu_node_capacity_checks"], st["dra_gpu_node_closed_form_checks"], st["dra_gpu_node_rebuilds"], st["dra_gpu_request_comparisons"]))
+		return out
+	}
+	p.run(t, func(ssn *framework.Session, task func(string, string) *pod_info.PodInfo) {
+		v, w := task("pg-v", "v"), task("pg-w", "w")
+		show(t, "at session open:", gpuLines(ssn))
+		show(t, "C14 oracles:", oracles(ssn))
+		stmt := ssn.Statement()
+		_ = stmt.Evict(v, "probe", eviction_info.EvictionMetadata{})
+		show(t, "after Evict(v):", gpuLines(ssn))
+		show(t, "C14 oracles:", oracles(ssn))
+		_ = stmt.Pipeline(w, "n0", false)
+		show(t, "after Pipeline(w, n0):", gpuLines(ssn))
+		show(t, "C14 oracles:", oracles(ssn))
+		stmt.Discard()
+		show(t, "after Discard():", gpuLines(ssn))
+		show(t, "C14 oracles:", oracles(ssn))
+		stmt2 := ssn.Statement()
+		_ = stmt2.Allocate(w, "n0")
+		show(t, "after Allocate(w, n0):", gpuLines(ssn))
+		show(t, "C14 oracles:", oracles(ssn))
+		stmt2.Discard()
+		show(t, "after Discard():", gpuLines(ssn))
+		show(t, "C14 oracles:", oracles(ssn))
+	})
+}
